@@ -90,7 +90,7 @@ pub fn run(ctx: &mut Ctx) {
     ctx.floor("server.new", 2_000);
 
     // ------------------------------------------------ parsed TLS / DTLS client hellos
-    let n = ctx.tier.pick(8_000, 80_000);
+    let n = ctx.tier.pick(32000, 320000);
     ctx.family("parsed", n, |ctx, case: &mut Case| {
         let r = &mut case.rng;
         if case.idx % 3 != 0 {
@@ -138,7 +138,7 @@ pub fn run(ctx: &mut Ctx) {
     });
 
     // ------------------------------------------------ constructed values: new() stores arguments unchanged
-    let n = ctx.tier.pick(8_000, 80_000);
+    let n = ctx.tier.pick(32000, 320000);
     ctx.family("constructed", n, |ctx, case: &mut Case| {
         let r = &mut case.rng;
         let rl = match r.below(4) {
